@@ -47,6 +47,7 @@ PROBES = [
     # (arithmetic text, python-precedence value text) inside `x = <expr>` with a = 5, b = 3, c = 2
     "a - b - c", "-a**2", "2**3**2", "a/b*c", "a - -b", "a*-b", "-a*(b - c)", "a - b*c**2", "(a - b)**2/2", "2*a**2*b - a/2/2",
     "+a - +b", "a**2**1", "1/2*a", "a/(b*c)", "a/b/c",
+    "(-a)**2", "(-2)**2*a", "(a)**2 - (b)", "(-a)*(-b)", "a - (-b)**3", "((-a))**2 + (+b)", "(-1/2)**2*a", "2**(-1)*a", "(a)-(-b)",
 ]
 SUBST = ["=", "==", ":", "end", "if", "(", ")", "{", "}", ",", "+", "x", "1", "&&", "while", "else"]
 
